@@ -101,6 +101,81 @@ theorem gen_isBitSet_eq (d : Nat → Nat) (b : Nat) : Gen.isBitSet d b = isBitSe
   repeat' split
   all_goals first | rfl | (exfalso; simp at *; omega) | (simp only [decide_ne_eq_bne]; done) | (simp [decide_ne_eq_bne]; done) | (simp_all [decide_ne_eq_bne]; done)
 
+/-! `set_bit` / `unset_bit` as translated from the source on this run (Gen/PyFuns.lean) are the hand model: `none` exactly
+when the code raises, otherwise the four data bytes afterwards — so `set_changes_exactly` / `unset_changes_exactly` above
+hold of the code as it is now, for all data bytes and every index -/
+theorem isBitSetD_some_lt (d : Nat → Nat) (b : Nat) (v : Bool) (h : isBitSetD d b = some v) : b < 32 := by
+  unfold isBitSetD at h
+  repeat' split at h
+  all_goals first | omega | cases h
+
+theorem pow_mod8_lt (b : Nat) : 2 ^ (b % 8) < 256 := by
+  have : b % 8 < 8 := Nat.mod_lt _ (by decide)
+  calc 2 ^ (b % 8) < 2 ^ 8 := Nat.pow_lt_pow_right (by decide) this
+    _ = 256 := by decide
+
+theorem or_byte_lt (x b : Nat) (hx : x < 256) : x ||| 2 ^ (b % 8) < 256 := by
+  have : x ||| 2 ^ (b % 8) < 2 ^ 8 := Nat.or_lt_two_pow (by simpa using hx) (by simpa using pow_mod8_lt b)
+  simpa using this
+
+theorem xor_byte_lt (x b : Nat) (hx : x < 256) : x ^^^ 2 ^ (b % 8) < 256 := by
+  have : x ^^^ 2 ^ (b % 8) < 2 ^ 8 := Nat.xor_lt_two_pow (by simpa using hx) (by simpa using pow_mod8_lt b)
+  simpa using this
+
+macro "bit_cases" b:ident hlt:ident f:ident h0:ident h1:ident h2:ident h3:ident : tactic => `(tactic| (
+      have hq : $b / 8 = 0 ∨ $b / 8 = 1 ∨ $b / 8 = 2 ∨ $b / 8 = 3 := by omega
+      rcases hq with q | q | q | q
+      · have c1 : $b < 8 := by omega
+        have e : $b % 8 = $b := Nat.mod_eq_of_lt c1
+        have := $f _ $b $h3
+        simp [c1, $h0:ident, $h1:ident, $h2:ident, this, acc4, upd, q, e] <;> (rw [e] at this; simp [this])
+      · have c1 : ¬ $b < 8 := by omega
+        have c2 : 8 ≤ $b := by omega
+        have c3 : $b < 16 := by omega
+        have := $f _ $b $h2
+        simp [c1, c2, c3, $h0:ident, $h1:ident, $h3:ident, this, acc4, upd, q]
+      · have c1 : ¬ $b < 8 := by omega
+        have c2 : ¬ $b < 16 := by omega
+        have c3 : 16 ≤ $b := by omega
+        have c4 : $b < 24 := by omega
+        have c5 : 8 ≤ $b := by omega
+        have := $f _ $b $h1
+        simp [c1, c2, c3, c4, c5, $h0:ident, $h2:ident, $h3:ident, this, acc4, upd, q]
+      · have c1 : ¬ $b < 8 := by omega
+        have c2 : ¬ $b < 16 := by omega
+        have c3 : ¬ $b < 24 := by omega
+        have c4 : 24 ≤ $b := by omega
+        have c5 : 8 ≤ $b := by omega
+        have c6 : 16 ≤ $b := by omega
+        have := $f _ $b $h0
+        simp [c1, c2, c3, c4, c5, c6, $hlt:ident, $h1:ident, $h2:ident, $h3:ident, this, acc4, upd, q]))
+
+theorem gen_setBit_eq (d0 d1 d2 d3 b : Nat) (h0 : d0 < 256) (h1 : d1 < 256) (h2 : d2 < 256) (h3 : d3 < 256) :
+    Gen.setBit d0 d1 d2 d3 b = (setBitD (acc4 d0 d1 d2 d3) b).map (fun f => (f 0, f 1, f 2, f 3)) := by
+  unfold Gen.setBit setBitD
+  rw [show (fun k => if k = 0 then d0 else if k = 1 then d1 else if k = 2 then d2 else d3) = acc4 d0 d1 d2 d3 from rfl, gen_isBitSet_eq]
+  cases hb : isBitSetD (acc4 d0 d1 d2 d3) b with
+  | none => rfl
+  | some v =>
+    have hlt := isBitSetD_some_lt _ _ _ hb
+    cases v
+    · simp only [Option.map]
+      bit_cases b hlt or_byte_lt h0 h1 h2 h3
+    · rfl
+
+theorem gen_unsetBit_eq (d0 d1 d2 d3 b : Nat) (h0 : d0 < 256) (h1 : d1 < 256) (h2 : d2 < 256) (h3 : d3 < 256) :
+    Gen.unsetBit d0 d1 d2 d3 b = (unsetBitD (acc4 d0 d1 d2 d3) b).map (fun f => (f 0, f 1, f 2, f 3)) := by
+  unfold Gen.unsetBit unsetBitD
+  rw [show (fun k => if k = 0 then d0 else if k = 1 then d1 else if k = 2 then d2 else d3) = acc4 d0 d1 d2 d3 from rfl, gen_isBitSet_eq]
+  cases hb : isBitSetD (acc4 d0 d1 d2 d3) b with
+  | none => rfl
+  | some v =>
+    have hlt := isBitSetD_some_lt _ _ _ hb
+    cases v
+    · rfl
+    · simp only [Option.map]
+      bit_cases b hlt xor_byte_lt h0 h1 h2 h3
+
 -- non-vacuity: bit 9 of 0x00000200 is set, bit 8 is not; setting bit 0 of 0x80000000 gives 0x80000001
 example : isBitSet 0x200 9 = some true ∧ isBitSet 0x200 8 = some false ∧ isBitSet 0 32 = none := by decide
 example : setBit 0x80000000 0 = some 0x80000001 ∧ unsetBit 0x80000001 31 = some 1 ∧ setBit 1 0 = none := by decide
